@@ -3,6 +3,7 @@ from __future__ import annotations
 
 import ast
 import io
+import json
 import re
 import sys
 import tokenize as pytok
@@ -127,6 +128,8 @@ def c10(X, src, mode="exec"):
     def norm(x):
         if x[0] in ("NEWLINE", "ENDMARKER", "DEDENT", "INDENT"):
             return (x[0],)
+        if "\n" in x[1] and not x[1].isascii():
+            return x[:3]     # CPython 3.12's tokenize derives the END column of a multi-line token from bytes: only type, text and start are compared
         return x
     no, nt = [norm(x) for x in ours], [norm(x) for x in theirs]
     merged = []
@@ -148,6 +151,8 @@ def c10(X, src, mode="exec"):
     if a != b:
         if not src.isascii() and a == O.dump(O._byte_to_char_cols(ref, src)):
             return {"kind": "fstring-tree-differs", "diff": O.first_diff(a, b), "features": ["nonascii-char-columns"]}
+        if not src.isascii() and O.dump(O.nfkc_identifiers(tree)) in (b, O.dump(O._byte_to_char_cols(ref, src))):
+            return {"kind": "fstring-tree-differs", "diff": O.first_diff(a, b), "features": ["identifier-not-nfkc"]}
         return {"kind": "fstring-tree-differs", "diff": O.first_diff(a, b), "features": [f for f in feats if f != "nonascii"]}
     return None
 
@@ -839,6 +844,10 @@ def universal(text):
 def c12(X, content, env_name="C-ascii", repo=O.REPO_DEFAULT):
     if "\x00" in content:
         return None
+    try:
+        content.encode("utf-8")
+    except UnicodeEncodeError:
+        return None     # a lone surrogate cannot be the content of a UTF-8 file: no 'same content' exists for the file entry point
     res, err = file_vs_string([content], env_name, repo)
     if res is None:
         return {"kind": "child-interpreter-failed", "observed": err, "expected": "comparison ran"}
@@ -1280,3 +1289,57 @@ def c17(X, grammar_data, w, repo=O.REPO_DEFAULT):
 
 
 ORACLES.update({"c17": c17})
+
+
+# ------------------------------------------------------------------ C03: catastrophic backtracking of a tokenizer pattern
+REGEX_CORPUS = ["x = 1\n", "a `b.*` g`c` @f`d`\n", "'s' \"d\" '''t\nu''' \"\"\"v\nw\"\"\"\n", "f'a{b!r:>{w}}c' f\"{d}\" f'''e\n{f}''' rf\"\"\"{g}\n\"\"\"\n", "p'/x' pf'{y}' pr\"z\"\n",
+                "0x1f 0b1 0o7 1_0 1.5e-3j .5 1e5\n", "# c\n\tx \\\n  y\n", "$(ls -l) $[a] !(b) ![c] @(d) @$(e) ${f} $G\n", "'a\\\nb' 'c\n", "f'{x:{y}}' f'{{}}' f'{a}}'\n"]
+
+
+def compiled_patterns(X, corpus=None):
+    """the pattern strings the working tree's tokenizer compiles while tokenizing the corpus"""
+    pats = []
+    orig = X.tokenize._compile
+
+    def rec(expr):
+        pats.append(expr)
+        return orig(expr)
+    X.tokenize._compile = rec
+    try:
+        for t in corpus or REGEX_CORPUS:
+            O.safe_tokens(X, t, 2.0)
+    finally:
+        X.tokenize._compile = orig
+    return list(dict.fromkeys(pats))
+
+
+def _match_steps(pattern, text, budget_s):
+    """seconds one failing/succeeding match takes in a child process (None = killed after budget_s)"""
+    import subprocess
+    import time
+    code = "import re,sys,json; p,t=json.load(sys.stdin); re.compile(p, re.UNICODE).match(t)"
+    t0 = time.time()
+    try:
+        subprocess.run([sys.executable, "-c", code], input=json.dumps([pattern, text]), text=True, capture_output=True, timeout=budget_s)
+    except subprocess.TimeoutExpired:
+        return None
+    return time.time() - t0
+
+
+def c03_regex(X, pattern, prefix, unit, suffix, reps=64):
+    """the tokenizer's own pattern on prefix + unit*reps + suffix: one match call must finish (exponential backtracking never does)"""
+    # the pattern text is not stable across processes (the string-prefix alternation is built from a set): identify it up to permutation
+    same = [p for p in compiled_patterns(X) if sorted(p) == sorted(pattern)]
+    if not same:
+        return None     # not a pattern of this tree's tokenizer (any more)
+    pattern = same[0]
+    base = _match_steps(pattern, prefix + suffix, 20.0) or 0.0
+    text = prefix + unit * reps + suffix
+    t = _match_steps(pattern, text, 20.0 + base)
+    if t is None:
+        return {"kind": "regex-exponential-backtracking", "observed": f"one match call on {len(text)} characters did not finish within 20 s",
+                "expected": "every match call terminates in time polynomial in the line length", "pattern": pattern[:300], "input": text}
+    return None
+
+
+ORACLES.update({"c03_regex": c03_regex})
